@@ -137,9 +137,9 @@ theorem int_pow_wraps (F : FloatOps) (x : Int) (b : Int64) (hb : ¬ b < 0) :
   simp only [Num.pow, hb, if_false]
   rw [wpow_spec 64 x _ hlt]
 
-/-- the code's `wrapping_pow(b as u32)` is **not** that function: the exponent is truncated to 32
-bits, so `2 ^ 4294967296` is `1` in Koto where wrapping arithmetic gives `0` (finding F-C01-5);
-below 2³² the two agree by definition of `asU32` -/
+/-- the code's former `wrapping_pow(b as u32)` (`Num.powTrunc`, before /repo 1b7bdc2) was **not** that
+function: the exponent was truncated to 32 bits, so `2 ^ 4294967296` was `1` where wrapping
+arithmetic gives `0` (finding F-C01-5, fixed; kept as the historical witness) -/
 theorem pow_trunc_witness :
     Num.powTrunc stubFloatOps (.i 2) (.i 4294967296) = .i 1
     ∧ Num.pow stubFloatOps (.i 2) (.i 4294967296) = .i 0
